@@ -148,6 +148,9 @@ func (c02) Gen(tier string, seed int64) []fw.Unit {
 	for _, fd := range foreignDigitStrings() {
 		add("foreign-digits", []byte(fd))
 	}
+	for _, sp := range structuredPayloads() {
+		add("structured", sp)
+	}
 	for _, s := range []string{"", "0", "00", "000", "0a0", "\x00", "\x7f", "\x80", "\xff", "\xff\xff", "9\xff9", "\xc3\x28", "é", "12\x8034", "\x8012", "1\x802"} {
 		add("special", []byte(s))
 	}
